@@ -41,7 +41,7 @@ DEFS = [
     flat('c01_nested_prefixes', [R(s('abab')), R(s('ab')), R(c('a')), R(c('b'))], ['C01'], N=4),
     # join reachable with and without an earlier accept + cycle (the shape behind the old update_backtracks defect)
     flat('c01_join_cycle', [R(c('c')), R(cat(cset(rng('a', 'd')), s('cc'))), R(cat(plus(cset(rng('a', 'd'))), s('ba'))), R(c('b'))],
-         ['C01', 'C12'], N=4),
+         ['C01', 'C12'], N=3, Nt=4),
     # property-file counterexample: needs 5 characters ("bbabx")
     flat('c01_property_cex', [R(cat(cset(rng('b', 'c')), s('bab'), alt(cset(rng('c', 'e')), s('ab')))), R(c('b')), R(c('a')),
                               R(cat(s('cbaa'), cset(rng('b', 'c'))))], ['C01'], N=5, tier='thorough'),
@@ -86,7 +86,7 @@ DEFS = [
         ('Init', [R(s('ab'), 'switch', to='Z'), R(c('q'), 'return')]),
         ('Z', [R(c('q'), 'switch_return', to='M')]),
         ('M', [R(cat(c('q'), c('r')), 'return'), R(c('q'), 'switch', to='Init')]),
-    ], ['C03'], N=3, m=2),
+    ], ['C03'], N=2, m=2, Nt=3),
 
     # ---------------------------------------------------------------- C04: right contexts
     flat('c04_literal_ctx', [R(c('a'), ctx=s('bc')), R(c('a')), R(c('b')), R(c('c'))], ['C04', 'C12'], N=4),
@@ -109,7 +109,7 @@ DEFS = [
     ], ['C05', 'C03'], N=3, m=2),
 
     # ---------------------------------------------------------------- C06: locations with the real width function
-    flat('c06_widths', [R(plus(cset(rng('a', 'z'))), 'return'), R(cset('\n', '\t', ' '), 'skip'), R(ANY, 'return')], ['C06'], N=2, m=2, width=True),
+    flat('c06_widths', [R(plus(cset(rng('a', 'z'))), 'return'), R(cset('\n', '\t', ' '), 'skip'), R(ANY, 'return')], ['C06'], N=2, m=1, Nt=2, mt=2, width=True),
     flat('c06_rewind_widths', [R(cat(plus(ANY), c('!')), 'return'), R(ANY, 'return')], ['C06'], N=3, m=1, width=True),
 
     # ---------------------------------------------------------------- C07: errors
@@ -126,16 +126,30 @@ DEFS = [
 
     # ---------------------------------------------------------------- C10: action protocol
     flat('c10_kinds', [R(c('s'), 'skip'), R(c('c'), 'continue'), R(c('r'), 'reset_continue'), R(c('t'), 'return'), R(c('k'), 'tok'),
-                       R(s('tt'), 'return')], ['C10'], N=3, m=3),
+                       R(s('tt'), 'return')], ['C10'], N=2, m=3, Nt=3),
     # a shorter candidate's saved position must not outlive the selection of a longer rule whose action continues
     flat('c10_stale_accept', [R(c('-'), 'return'), R(s('--'), 'continue'), R(c('a'), 'return'), R(cat(cset('a', 'b'), c('x'), c('y')), 'return')],
-         ['C10', 'C03', 'C01'], N=3, m=2),
+         ['C10', 'C03', 'C01'], N=2, m=2, Nt=3),
 ]
 
-# termination-only definitions (C09): no reference, the harness only demands that next() returns within the unwinding bound
-TERMINATION_DEFS = [
-    flat('c09_eof_under_repetition', [R(plus(alt(c('\n'), EOF)), 'return'), R(plus(cset(rng('a', 'z'))), 'return')], ['C09'], N=3),
-    flat('c09_any_star', [R(cat(c('"'), star(diff(ANY, c('"'))), c('"')), 'return'), R(ANY, 'skip')], ['C09'], N=4),
+DEFS += [
+    # ---------------------------------------------------------------- C09: termination / progress only (no reference): next() returns within the unwinding bound
+    flat('c09_eof_under_repetition', [R(plus(alt(c('\n'), EOF)), 'return'), R(plus(cset(rng('a', 'z'))), 'return')], ['C09'], N=3, m=1, form='termination', unwind=10),
+    flat('c09_string_or_skip', [R(cat(c('"'), star(diff(ANY, c('"'))), c('"')), 'return'), R(ANY, 'skip')], ['C09'], N=3, m=4, form='termination', unwind=16),
+    multi('c09_sets_continue', [
+        ('Init', [R(c('a'), 'switch', to='S'), R(ANY, 'continue')]),
+        ('S', [R(plus(c('s')), 'continue'), R(cat(c('s'), c('t')), 'switch_return', to='Init'), R(EOF, 'return')]),
+    ], ['C09'], N=3, m=4, form='termination', unwind=16),
+    # ---------------------------------------------------------------- C15: clone at any call boundary
+    multi('c15_clone', [
+        ('Init', [R(c('a'), 'switch', to='S'), R(plus(cset(rng('x', 'z'))), 'return'), R(c(' '), 'skip')]),
+        ('S', [R(c('s'), 'return'), R(EOF, 'return'), R(c('q'), 'switch_return', to='Init')]),
+    ], ['C15'], N=3, m=3, form='clone', unwind=14, attrs='#[derive(Clone)]'),
+    flat('c15_clone_rewind', [R(cat(plus(c('a')), c('b')), 'return'), R(c('a'), 'return'), R(EOF, 'return')], ['C15'], N=3, m=1, form='clone', unwind=8,
+         attrs='#[derive(Clone)]'),
+    # ---------------------------------------------------------------- C14: the four constructors
+    flat('c14_ctors', [R(plus(cset(rng('a', 'z'))), 'return'), R(cset(' ', '\n', '\t'), 'skip'), R(cat(ANY, c('!')), 'return'), R(ANY, 'return')], ['C14'],
+         N=2, m=3, form='ctor', unwind=12, width=True),
 ]
 
 
